@@ -44,19 +44,14 @@ func runC22(tr *vh.Trace, rnd *rand.Rand, nscen, nq int) {
 			}
 			qs = append(qs, q)
 			addWants(wants, q)
-			need := map[string][]string{}
-			q.needs(need)
-			for t, k := range need {
-				dup := false
+			q.needs(func(t string, k []string) {
 				for _, k2 := range musts[t] {
 					if sameSet(k, k2) {
-						dup = true
+						return
 					}
 				}
-				if !dup {
-					musts[t] = append(musts[t], k)
-				}
-			}
+				musts[t] = append(musts[t], k)
+			})
 		}
 		type res struct {
 			first map[string]*Outcome
